@@ -8,6 +8,7 @@ import PyYetiVerif.Props.C13Fmt
 import PyYetiVerif.Props.C13Multi
 import PyYetiVerif.Props.C13Values
 import PyYetiVerif.Props.C13Uset
+import PyYetiVerif.Props.C13Set
 #print axioms PyYetiVerif.C13.thru_roundtrip
 #print axioms PyYetiVerif.C13.thru_maximal
 #print axioms PyYetiVerif.C13.nasints_layout
@@ -75,3 +76,5 @@ import PyYetiVerif.Props.C13Uset
 #print axioms PyYetiVerif.C13.dmig_lines_int_instance
 #print axioms PyYetiVerif.C13.uset_bulk_roundtrip_labels
 #print axioms PyYetiVerif.C13.uset_bulk_roundtrip_labels_full
+#print axioms PyYetiVerif.C13.set_header_split_fails
+#print axioms PyYetiVerif.C13.set_roundtrip_iff_partial
